@@ -315,7 +315,7 @@ def config_task(args):
             w.set_pending([])
             for sha, st in table.items():
                 E.apply(w, ['ci_sha', sha, st])
-            pre = w.state()
+            before = w.state()
             qmaster = sorted(b for b in w.heads() if b.startswith('q/') and
                              not b.startswith('q/w/'))[0]
             o = E.apply(w, ['eval_commit', qmaster])
@@ -325,8 +325,23 @@ def config_task(args):
                             p['state'] == 'MERGED' and
                             p['id'] in w.pr_ids)
             moved = {b: s for b, s in post['refs'].items()
-                     if b in dests and pre['refs'].get(b) != s}
+                     if b in dests and before['refs'].get(b) != s}
             res['replays'] += 1
+            # the real job against the statement (not only against the run
+            # on the graph): what moved on the repository is what counts
+            exp = reference(prs, dests, qw, table, False)
+            if (merged, moved) != exp and len(res['mismatches']) < 20:
+                res['mismatches'].append({
+                    'layout': layout, 'destinations': dsts,
+                    'prehistory': pre,
+                    'entry_order': [i + 1 for i in order],
+                    'pr_ids': list(w.pr_ids),
+                    'statuses': {'%d@%s' % k: table[v]
+                                 for k, v in qw.items()},
+                    'force_merge': False, 'on': 'repository',
+                    'code': [merged, {k: v[:8] for k, v in moved.items()}],
+                    'statement': [exp[0], {k: v[:8] for k, v in
+                                           exp[1].items()}]})
             if got[0] == 'crash':
                 agree = o.get('status') not in ('Merged',)
             else:
@@ -424,13 +439,20 @@ def run(tier, seed, workers=None):
     evaluations = sum(r['evaluations'] for r in results)
     nontrivial = sum(r['nontrivial'] for r in results)
     replays = sum(r['replays'] for r in results)
+    any_mismatch = any(r['mismatches'] for r in results)
     for r in results:
         if r['error']:
             cr.harness_errors.append(r['error'][-1500:])
         for m in r['replay_mismatches']:
-            cr.harness_errors.append(
-                'CONFORMANCE: the class on the extracted graph and Bert-E on '
-                'the real repository disagree: %s' % m)
+            msg = ('CONFORMANCE: the class on the extracted graph and Bert-E '
+                   'on the real repository disagree: %s' % m)
+            if any_mismatch:
+                # the code under test already departs from the statement:
+                # two runs of it disagreeing is a symptom, not a harness
+                # problem
+                cr.notes.append(msg[:400])
+            else:
+                cr.harness_errors.append(msg)
         for m in r['mismatches']:
             cr.add_violation(
                 'QueueCollection selects %s, the statement says %s: %s' % (
@@ -491,8 +513,25 @@ def replay(data):
                        r.split('/')[3].startswith(ver + '.')))][0]
             qw[(int(pid), t)] = graph.refs[ref]
             table[graph.refs[ref]] = st
-        got = run_real_class(graph, table, m['force_merge'])
         exp = reference(prs, dests, qw, table, m['force_merge'])
+        if m.get('on') == 'repository':
+            from ..sysmc import events as E
+            for sha, st in table.items():
+                E.apply(w, ['ci_sha', sha, st])
+            before = w.state()
+            qmaster = sorted(b for b in w.heads() if b.startswith('q/') and
+                             not b.startswith('q/w/'))[0]
+            o = E.apply(w, ['eval_commit', qmaster])
+            post = w.state()
+            merged = sorted(p['id'] for p in post['prs']
+                            if p['author'] != 'robot' and
+                            p['state'] == 'MERGED' and p['id'] in w.pr_ids)
+            moved = {b: s for b, s in post['refs'].items()
+                     if b in dests and before['refs'].get(b) != s}
+            got = (merged, moved)
+            return got == exp, 'queue evaluation (%s) on the repository ' \
+                '%s\nstatement %s' % (o.get('status'), got, exp)
+        got = run_real_class(graph, table, m['force_merge'])
         return got == exp, 'code %s\nstatement %s' % (got, exp)
     finally:
         shutil.rmtree(explorer.master_root(), ignore_errors=True)
